@@ -257,6 +257,8 @@ def child_modes(node, mode):
     if k == "columns":
         return ["fixed" if o[0] == "pack" and is_fixed_tree(c) else ("box" if (mode == "box" or b) else "flow")
                 for o, b, c in node[4]]
+    if k == "padding" and mode == "fixed" and node[3][0] == "given":
+        return ["flow"]              # Padding.render(()) with a given width hands (width,) to the child
     if k in ("padding", "attrmap", "linebox"):
         return [mode]
     if k == "filler":
@@ -447,8 +449,8 @@ def fixed_not_ragged(w, atomic=()):
             return True
         return all(fixed_not_ragged(c, atomic) for (c, _), a in zip(w.contents, args) if a == ())
     if isinstance(w, urwid.Padding):
-        if w._width_type == urwid.WHSettings.GIVEN:
-            return True
+        if w._width_type == urwid.WHSettings.GIVEN:      # the child is a flow widget rendered with (width,)
+            return w._width_amount >= 1 and fits_w(w.original_widget, (w._width_amount,), atomic)
         return fixed_not_ragged(w.original_widget, atomic)
     return True
 
@@ -1468,7 +1470,7 @@ class C09(core.Check):
         "every child supports the mode (flow / box) its container asks of it (checked against sizing() for every case)",
         "integer columns for move_cursor_to_coords ('left' / 'right' are not modelled); button-1 press events",
         "pack((maxcol,))[0] == maxcol for every modelled widget (Widget.pack default; Text-like widgets with their own pack are oracle-only)",
-        "a widget rendered fixed 'fits' only when its width type is 'pack' (Padding / Overlay) resp. every fixed item fits the width / column it gets; Padding with a given or relative width rendered at size () is excluded (render works, the three other methods raise ValueError: reported)",
+        "a Padding rendered with size () 'fits' when its width is 'pack' around a fixed widget or given (>= 1) around a flow widget that fits (width,) (since fix ba33666 all methods hand the child that size; the former witness is a corpus case and Example padding_given_fixed_repaired); a relative width at size () is excluded; every fixed item must fit the width / column it gets",
         "a Pile rendered with size () 'fits' only when all its fixed items are as wide as the Pile: Pile.render(()) does not pad narrower items, the canvas is ragged and, overlaid or joined, is drawn at positions no method computes (reported, corpus/C09/repro_pile_ragged.py); such cases get no correspondence (encode returns None) and are never judged by the oracle",
         "leaf contract: a leaf's get_cursor_coords equals the cursor of its own focused rendering; a cursor implies selectable + cursor API",
         "the bottom widget of an Overlay is background: it never receives mouse events (by design of Overlay.mouse_event)",
@@ -1684,7 +1686,11 @@ class C09(core.Check):
     def fixed_tree(self, g, rng, d):
         if d <= 0 or rng.random() < 0.35:
             return ["fleaf", g.nid(), rng.choice([1, 2, 3, 5]), rng.choice([1, 1, 2]), 1 if rng.random() < 0.6 else 0]
-        k = rng.choice(["padding", "padding", "attrmap", "pile", "columns"])
+        k = rng.choice(["padding", "padding", "attrmap", "pile", "columns", "gpadding"])
+        if k == "gpadding":     # a given width makes a Padding around a flow widget a fixed widget (the child gets (width,))
+            # no fixed margins here: Padding.mouse_event(()) has no bounds check, a press on a margin reaches the child
+            # with coordinates outside it (reported; the corpus witness with left=2 is a proposed known finding)
+            return ["padding", g.leaf(False), g.align(), ["given", rng.choice([1, 2, 3, 5])], None, 0, 0]
         if k == "padding":
             return ["padding", self.fixed_tree(g, rng, d - 1), g.align(), ["pack"], None, rng.choice([0, 1, 2, 3]), rng.choice([0, 1, 2])]
         if k == "attrmap":
@@ -1715,7 +1721,13 @@ class C09(core.Check):
                 res = observe(case, want_moves=False)
             except Exception:  # noqa: BLE001
                 return None
-            return case if res.get("fits") else None
+            if not res.get("fits"):
+                return None
+            try:
+                self.add_moves(rng, case, res, 3)
+            except Exception:  # noqa: BLE001
+                case["moves"] = []
+            return case
         if kind == "overlay":
             tree = ["overlay", ft, ["fill"], g.align(), ["pack"], g.valign(), ["pack"], None, None,
                     rng.choice([0, 0, 1]), rng.choice([0, 0, 1]), rng.choice([0, 0, 1]), rng.choice([0, 0, 1])]
